@@ -9,7 +9,7 @@ import sys
 HERE = os.path.dirname(os.path.abspath(__file__))
 sys.path.insert(0, os.path.dirname(HERE))
 from xv import alpha          # noqa: E402
-from xv.model import _LoadNormaliser  # noqa: E402
+from xv.model import normal_form  # noqa: E402
 
 
 def main(repo="/repo"):
@@ -21,7 +21,7 @@ def main(repo="/repo"):
             if f.endswith(".py"):
                 p = os.path.join(dp, f)
                 with open(p, encoding="utf-8") as fh:
-                    tree = _LoadNormaliser().visit(ast.parse(fh.read()))
+                    tree = normal_form(ast.parse(fh.read()))
                 t = alpha.reference_table(tree)
                 if t:
                     table[os.path.relpath(p, repo).replace(os.sep, "/")] = t
